@@ -31,12 +31,12 @@ if TYPE_CHECKING:
 
 class DocstringParser(AbstractDocstringParser):
     def __init__(self, parser: Parser, package_path: Path):
-        while True:
-            try:
-                self.griffe_build = load(package_path, docstring_parser=parser)
-                break
-            except KeyError:
-                package_path = package_path.parent
+        # Like Mypy, we name the modules relative to the highest directory that is still a package. Griffe would
+        # otherwise search the module search path (and with it the working directory) for the package.
+        while (package_path.parent / "__init__.py").is_file() and package_path.parent != package_path:
+            package_path = package_path.parent
+
+        self.griffe_build = load(package_path.name, search_paths=[package_path.parent], docstring_parser=parser)
 
         self.parser = parser
         self.__cached_node: str | None = None
